@@ -1155,6 +1155,9 @@ def call_builtin(it, name, args, kwargs, node):
         (a,) = args
         if isinstance(a, ExcObj):
             return ExcClassObj(a.cls)
+        if isinstance(a, V) and isinstance(a.sort, S.TRef):
+            # type(obj) of an object: its dynamic class, as an opaque value (only passed on, never called)
+            return V(TVal, (it.eng.ufunc("val_of_class", z3.IntSort(), S.ValS)(it.eng.dyntype(a.t)),))
         raise OutOfSubset("type()")
     if name == "round":
         # round(x[, n]) is not modelled arithmetically (A-REAL): an uninterpreted function of its arguments
